@@ -28,20 +28,23 @@ func (r SatResult) String() string {
 }
 
 type Solver struct {
-	kind    string // z3 | z3-new | cvc5 | cvc5-int
-	cmd     *exec.Cmd
-	in      io.WriteCloser
-	out     *bufio.Reader
-	defined map[uint32]bool
-	ufs     map[string]bool
-	vars    map[string]bool
-	level   int
-	Queries int
-	Time    time.Duration
-	Errors  int
-	log     io.Writer
-	timeout int // ms per query
-	dead    bool
+	kind     string // z3 | z3-new | cvc5 | cvc5-int
+	cmd      *exec.Cmd
+	in       io.WriteCloser
+	out      *bufio.Reader
+	defined  map[uint32]bool
+	ufs      map[string]bool
+	vars     map[string]bool
+	level    int
+	scopes   []scope
+	Queries  int
+	Time     time.Duration
+	ValTime  time.Duration
+	ValCalls int
+	Errors   int
+	log      io.Writer
+	timeout  int // ms per query
+	dead     bool
 }
 
 func solverArgv(kind string, timeoutMs int) []string {
@@ -51,9 +54,9 @@ func solverArgv(kind string, timeoutMs int) []string {
 	case "z3-new":
 		return []string{"z3-new", "-in"}
 	case "cvc5":
-		return []string{"cvc5", "--incremental", "--produce-models", "--global-declarations", fmt.Sprintf("--tlimit-per=%d", timeoutMs)}
+		return []string{"cvc5", "--incremental", "--produce-models", fmt.Sprintf("--tlimit-per=%d", timeoutMs)}
 	case "cvc5-int":
-		return []string{"cvc5", "--incremental", "--produce-models", "--global-declarations", "--solve-bv-as-int=sum", fmt.Sprintf("--tlimit-per=%d", timeoutMs)}
+		return []string{"cvc5", "--incremental", "--produce-models", "--solve-bv-as-int=sum", fmt.Sprintf("--tlimit-per=%d", timeoutMs)}
 	}
 	panic("unknown solver " + kind)
 }
@@ -76,9 +79,7 @@ func NewSolver(kind string, timeoutMs int) (*Solver, error) {
 	s := &Solver{kind: kind, cmd: cmd, in: in, out: bufio.NewReaderSize(outp, 1<<16),
 		defined: map[uint32]bool{}, ufs: map[string]bool{}, vars: map[string]bool{}, timeout: timeoutMs}
 	if strings.HasPrefix(kind, "z3") {
-		s.send("(set-option :global-declarations true)")
 		s.send(fmt.Sprintf("(set-option :timeout %d)", timeoutMs))
-		s.send("(set-option :model.completion true)")
 	} else {
 		s.send("(set-logic ALL)")
 	}
@@ -116,6 +117,7 @@ func (s *Solver) declare(t *Term) {
 	if t.op == OpVar {
 		if !s.vars[t.name] {
 			s.vars[t.name] = true
+			s.noteVar(t.name)
 			s.send(fmt.Sprintf("(declare-fun %s () %s)", smtName(t.name), sortOf(t.w)))
 		}
 		return
@@ -154,6 +156,7 @@ func (s *Solver) declare(t *Term) {
 		}
 		if n.op == OpUF && !s.ufs[n.name] {
 			s.ufs[n.name] = true
+			s.noteUF(n.name)
 			var sb strings.Builder
 			for _, x := range n.list {
 				sb.WriteString(sortOf(x.w) + " ")
@@ -161,12 +164,59 @@ func (s *Solver) declare(t *Term) {
 			s.send(fmt.Sprintf("(declare-fun %s (%s) %s)", smtName(n.name), sb.String(), sortOf(n.w)))
 		}
 		s.defined[n.id] = true
+		s.noteDef(n.id)
 		s.send(fmt.Sprintf("(define-fun t%d () %s %s)", n.id, sortOf(n.w), body(n)))
 	}
 }
 
-func (s *Solver) Push() { s.level++; s.send("(push 1)") }
-func (s *Solver) Pop()  { s.level--; s.send("(pop 1)") }
+// Declarations and definitions are scoped: what was introduced inside a push
+// level disappears with the matching pop (a solver that keeps thousands of
+// global define-funs becomes slow at building models).
+func (s *Solver) Push() {
+	s.level++
+	s.scopes = append(s.scopes, scope{})
+	s.send("(push 1)")
+}
+
+func (s *Solver) Pop() {
+	s.level--
+	sc := s.scopes[len(s.scopes)-1]
+	s.scopes = s.scopes[:len(s.scopes)-1]
+	for _, id := range sc.defs {
+		delete(s.defined, id)
+	}
+	for _, n := range sc.vars {
+		delete(s.vars, n)
+	}
+	for _, n := range sc.ufs {
+		delete(s.ufs, n)
+	}
+	s.send("(pop 1)")
+}
+
+type scope struct {
+	defs []uint32
+	vars []string
+	ufs  []string
+}
+
+func (s *Solver) noteDef(id uint32) {
+	if n := len(s.scopes); n > 0 {
+		s.scopes[n-1].defs = append(s.scopes[n-1].defs, id)
+	}
+}
+
+func (s *Solver) noteVar(name string) {
+	if n := len(s.scopes); n > 0 {
+		s.scopes[n-1].vars = append(s.scopes[n-1].vars, name)
+	}
+}
+
+func (s *Solver) noteUF(name string) {
+	if n := len(s.scopes); n > 0 {
+		s.scopes[n-1].ufs = append(s.scopes[n-1].ufs, name)
+	}
+}
 
 func (s *Solver) Assert(t *Term) {
 	if t.IsTrue() {
@@ -231,6 +281,8 @@ func (s *Solver) CheckWith(extra ...*Term) SatResult {
 // Values returns the model values of the given terms (after a Sat answer, in
 // the same scope).
 func (s *Solver) Values(ts []*Term) ([]uint64, error) {
+	t0 := time.Now()
+	defer func() { s.ValTime += time.Since(t0); s.ValCalls++ }()
 	res := make([]uint64, len(ts))
 	// batch in chunks
 	const chunk = 64
